@@ -17,9 +17,11 @@ limitations under the License.
 package store
 
 import (
+	"bytes"
 	"context"
 	"crypto/sha256"
 	"encoding/binary"
+	"errors"
 	"fmt"
 	"time"
 
@@ -136,6 +138,12 @@ func (s *Snapshot) GetWithPrefix(ctx context.Context, prefix []byte, neq []byte)
 }
 
 func (s *Snapshot) GetWithPrefixAndFilters(ctx context.Context, prefix []byte, neq []byte, filters ...FilterFn) (key []byte, valRef ValueRef, err error) {
+	for _, filter := range filters {
+		if filter == nil {
+			return nil, nil, fmt.Errorf("%w: invalid filter function", ErrIllegalArguments)
+		}
+	}
+
 	key, indexedVal, tx, hc, err := s.snap.GetWithPrefix(prefix, neq)
 	if err != nil {
 		return nil, nil, err
@@ -147,13 +155,11 @@ func (s *Snapshot) GetWithPrefixAndFilters(ctx context.Context, prefix []byte, n
 	}
 
 	for _, filter := range filters {
-		if filter == nil {
-			return nil, nil, fmt.Errorf("%w: invalid filter function", ErrIllegalArguments)
-		}
-
 		err = filter(valRef, s.ts)
 		if err != nil {
-			return nil, nil, err
+			// the first key having the prefix is filtered out (e.g. deleted or expired),
+			// the following ones may not be
+			return s.nextWithPrefixAndFilters(ctx, prefix, key, neq, err, filters)
 		}
 	}
 
@@ -162,6 +168,61 @@ func (s *Snapshot) GetWithPrefixAndFilters(ctx context.Context, prefix []byte, n
 	}
 
 	return key, valRef, nil
+}
+
+// nextWithPrefixAndFilters returns the first key greater than the provided one having the prefix,
+// different from neq and accepted by every filter. If there is none, notFoundErr is returned.
+func (s *Snapshot) nextWithPrefixAndFilters(ctx context.Context, prefix, after, neq []byte, notFoundErr error, filters []FilterFn) (key []byte, valRef ValueRef, err error) {
+	r, err := s.snap.NewReader(tbtree.ReaderSpec{
+		SeekKey: after,
+		Prefix:  prefix,
+	})
+	if err != nil {
+		return nil, nil, err
+	}
+	defer r.Close()
+
+	for {
+		if err := ctx.Err(); err != nil {
+			return nil, nil, err
+		}
+
+		key, indexedVal, tx, hc, err := r.Read()
+		if errors.Is(err, tbtree.ErrNoMoreEntries) {
+			return nil, nil, notFoundErr
+		}
+		if err != nil {
+			return nil, nil, err
+		}
+
+		if neq != nil && bytes.Equal(key, neq) {
+			continue
+		}
+
+		valRef, err = s.st.valueRefFrom(tx, hc, indexedVal)
+		if err != nil {
+			return nil, nil, err
+		}
+
+		filtered := false
+
+		for _, filter := range filters {
+			if filter(valRef, s.ts) != nil {
+				filtered = true
+				break
+			}
+		}
+
+		if filtered {
+			continue
+		}
+
+		if s.refInterceptor != nil {
+			return key, s.refInterceptor(key, valRef), nil
+		}
+
+		return key, valRef, nil
+	}
 }
 
 func (s *Snapshot) History(key []byte, offset uint64, descOrder bool, limit int) (valRefs []ValueRef, hCount uint64, err error) {
